@@ -53,6 +53,17 @@ class C03(Prop):
             V1[0][0] = big + rng.randint(0, 9)                 # man 0's favourite: lost in the first rotation
             V2[0][1 % n] = big + rng.randint(0, 9)             # woman 0's favourite: gained in the last rotation
             yield dict(entry="Irving.scf", family="huge_chain", P1=P1, P2=P2, V1=V1, V2=V2, with_profiles=bool(i % 2), zi=bool(i % 3))
+        # valuations stored in narrow or unsigned integer arrays, with values that use most of the dtype's range: sums of a few
+        # of them leave the range (the rotation weights must not be accumulated in the profile's dtype)
+        for i in range(40 if tier == "quick" else 800):
+            vdt, hi = [("int8", 120), ("int16", 30000), ("int32", 2 ** 31 - 5), ("uint8", 250), ("uint16", 65000), ("uint32", 2 ** 32 - 5), ("uint64", 2 ** 40), ("int8", 9)][i % 8]
+            P1, P2 = I.gen_profiles(rng, rng.choice(["rand", "latin", "noisy"]), 6)
+            def enc(P):
+                out = []
+                for row in P:
+                    vals = sorted([rng.randint(0, hi) for _ in row], reverse=True); out.append([vals[r - 1] for r in row])
+                return out
+            yield dict(entry="Irving.scf", family="narrow_valuations", P1=P1, P2=P2, V1=enc(P1), V2=enc(P2), with_profiles=True, zi=bool(i % 2), vdtype=vdt)
         N = 140 if tier == "quick" else 3000
         for i in range(N):
             kind = rng.choice(["rand", "rand", "latin", "block", "noisy"])
